@@ -570,7 +570,10 @@ def obligations_constructors(rep, repo, m):
     kw = {k.arg: norm(k.value) for k in call.value.keywords}
     for i, a in enumerate(call.value.args):
         kw[m.f_get.params[i]] = norm(a)
-    if kw.get("degree") == "degree" and kw.get("size") == "size" and kw.get("method") == "method":
+    # the method handed on is the variable the constructor itself dispatches on (the argument or its
+    # normalised spelling)
+    dv = getattr(m, "dvar", {}).get("__init__", "method")
+    if kw.get("degree") == "degree" and kw.get("size") == "size" and kw.get("method") in ("method", dv):
         rep.ok("O6.request-passed-on", cons, repo.rel("angular", call), norm(call)[:90])
     else:
         rep.violation("O6.request-passed-on", cons, "call",
